@@ -46,6 +46,20 @@ def gen_noise(tape: Tape, allow_leak: bool = True) -> dict:
     return {"eff_noise_rates": [r(f"er{i}") for i in idx], "eff_noise_opers": [ops3[i] for i in idx], "with_leakage": True}
 
 
+def xy_compatible(noise: dict | None) -> dict | None:
+    """Pulser simulates only dephasing / depolarizing / effective noise / SPAM / leakage / register noise in XY mode and
+    the adapter refuses the rest (a documented refusal, C04's subject): relaxation becomes dephasing, amplitude and
+    detuning fluctuations are dropped."""
+    if not noise:
+        return noise
+    out = dict(noise)
+    if "relaxation_rate" in out:
+        out["dephasing_rate"] = round(out.get("dephasing_rate", 0.0) + out.pop("relaxation_rate"), 6)
+    for k in ("amp_sigma", "detuning_sigma"):
+        out.pop(k, None)
+    return out or None
+
+
 def gen_case(tape: Tape, tier: str, prof: dict) -> dict:
     scn = S.gen_scenario(tape, prof)
     seq = S.build_sequence(scn)
@@ -77,6 +91,8 @@ def gen_case(tape: Tape, tier: str, prof: dict) -> dict:
             "runs": 1,
             "samples_per_run": 1,
         }
+    if scn.get("xy") and cfg.get("noise"):
+        cfg["noise"] = xy_compatible(cfg["noise"])
     n = len(scn["atoms"])
     # observables that carry states / operators inside the pickled config, and that cannot be un-permuted
     # (the config safeguard must then switch reordering off)
@@ -90,6 +106,20 @@ def gen_case(tape: Tape, tier: str, prof: dict) -> dict:
                 if k == "fidelity":
                     d["bits"] = "".join("r" if tape.bool(0.4, f"fb{i}") else "g" for i in range(n))
                 obs.append(d)
+    # options that travel inside the pickled config and select less-used code paths
+    if not cfg.get("noise") and not scn.get("xy") and tape.bool(0.12, "user_initial_state"):
+        bits = "".join("r" if tape.bool(0.5, f"ib{i}") else "g" for i in range(n))
+        cfg["initial_bits"] = bits if "r" in bits else "r" + bits[1:]
+    if not scn.get("slm") and tape.bool(0.1, "user_interaction_matrix"):
+        m = [[0.0] * n for _ in range(n)]
+        for i in range(n):
+            for j in range(i + 1, n):
+                m[i][j] = m[j][i] = round(tape.float(0.0, 15.0, f"u{i}{j}"), 3)
+        cfg["interaction_matrix"] = m
+    if tape.bool(0.1, "interaction_cutoff"):
+        cfg["interaction_cutoff"] = tape.choice([0.5, 2.0, 5.0], "cutoff")
+    if tape.bool(0.1, "log_file"):
+        cfg["log_file"] = "emu_run.log"
     pk = tape.choice(["identity", "reverse", "random", "real"], "perm_kind") if cfg["optimize"] else "identity"
     perm = list(range(n))
     if pk == "reverse":
